@@ -320,6 +320,96 @@ def clause5(P, res):
         res.violated(rid, "ready-sites", f"expected >= 6 Ready sites in polls that register in the async-send queue, found {n}")
 
 
+PRIM_REG = re.compile(r"^(register|register_async_send|register_async_recv|register_waiter|rearm)$")
+LIVE6 = re.compile(r"(receiver_dropped|consumer_dropped|producer_dropped|receiver_count|sender_count|is_disconnected|closed)$")
+
+
+class StateReads:
+    """does a fibre callee (transitively, <= 4 frames) look at shared state / at the other side's liveness?"""
+
+    def __init__(self, P):
+        self.P, self.memo = P, {}
+
+    def __call__(self, cid, depth=0):
+        if cid in self.memo:
+            return self.memo[cid]
+        self.memo[cid] = (False, False)
+        b = self.P.body(cid)
+        if b is None:
+            return self.memo[cid]
+        data = live = False
+        for e in b.calls():
+            if e.is_atomic and e.method != "store":
+                data = True
+                if e.args and LIVE6.search(b.path_of_operand(e.args[0])):
+                    live = True
+            if e.method in ("lock", "read", "write", "enter"):
+                data = True
+            if re.search(r"^((senders|receivers)_alive|is_closed|is_disconnected|is_empty)$", e.method or "") and (e.method != "is_empty" or "tails" in (b.path_of_operand(e.args[0]) if e.args else "")):
+                live = True
+        for ev in b.events:
+            if ev.kind == "assign" and ev.data["r"]["k"] == "agg" and ev.data["r"].get("variant") in ("Closed", "Disconnected"):
+                live = True
+        if depth < 4:
+            for cc in self.P.callees_of(b):
+                if cc.startswith("fibre::") and cc != cid:
+                    dd, ll = self(cc, depth + 1)
+                    data, live = data or dd, live or ll
+        self.memo[cid] = (data, live)
+        return self.memo[cid]
+
+
+def clause6(P, res):
+    rid = "C06-6"
+    res.rule(rid, "register, then look again, then Pending: where a poll hands its waker to a lock-free registration slot (register / register_async_send / "
+                  "register_async_recv / register_waiter / AtomicWaker::register), every path from that registration to Poll::Pending re-reads the channel state "
+                  "(the publisher may have published and notified between the first look and the registration: its notify found no waker), and some look at the "
+                  "other side's liveness lies between the two (a disconnect in that window is otherwise never noticed)")
+    sr = StateReads(P)
+    n = 0
+    for b, pend in poll_like_bodies(P):
+        regs = [r for r in registration_events(b) if r.kind == "call" and (PRIM_REG.match(r.method or "") or "AtomicWaker" in r.callee) and "sync::" not in b.id.split("<")[-1][:12]]
+        if not regs or b.id.startswith("fibre::sync::") or b.id.startswith("fibre::<sync::"):
+            continue
+        for i, p in enumerate(pend):
+            dom = [r for r in regs if b.dominated_by_any(p.pos, {r.pos})]
+            if not dom:
+                continue
+            r = dom[-1]
+            n += 1
+            key = f"{b.id}:Pending#{i}"
+            after = b.pos_reach_set(r.pos)
+            data_ev, live_ev = [], []
+            for e in b.calls():
+                if e.pos == r.pos or e.pos not in after or p.pos not in b.pos_reach_set(e.pos, removed=frozenset([r.pos])):
+                    continue      # not between this registration and this Pending (a later loop iteration registers again)
+                dd = ll = False
+                if e.is_atomic and e.method != "store":
+                    dd = True
+                    ll = bool(e.args and LIVE6.search(b.path_of_operand(e.args[0])))
+                elif (e.callee_resolved or "").startswith("fibre::") and not PRIM_REG.match(e.method or "") and not (e.method or "").startswith("unregister"):
+                    dd, ll = sr(e.callee_resolved)
+                if re.search(r"^((senders|receivers)_alive|is_closed|is_disconnected)$", e.method or ""):
+                    dd = ll = True
+                if e.method == "is_empty" and e.args and "tails" in b.path_of_operand(e.args[0]):
+                    dd = ll = True      # spmc: an empty cursor list means every receiver is gone
+                if dd:
+                    data_ev.append(e)
+                if ll:
+                    live_ev.append(e)
+            looks_again = bool(data_ev) and p.pos not in b.pos_reach_set(r.pos, removed=frozenset(x.pos for x in data_ev))
+            if not looks_again:
+                res.violated(rid, key, f"after registering the waker at {r.loc} a path reaches Poll::Pending at {p.loc} without looking at the channel again: a value (or a "
+                             "disconnect) published between the first check and the registration is never noticed and the task is never woken", where=p.loc)
+            elif not live_ev:
+                res.violated(rid, key, f"between the registration at {r.loc} and Poll::Pending at {p.loc} nothing looks at the other side's liveness: if the last peer handle "
+                             "goes away in that window its wake finds no waker and the future pends forever", where=p.loc)
+            else:
+                res.holds(rid, key, f"re-check at {data_ev[0].loc}, liveness at {live_ev[0].loc}", where=p.loc)
+    if n < 15:
+        res.violated(rid, "prim-registration-sites", f"expected >= 15 Pending sites behind a lock-free registration, found {n}")
+
+
 def run(P, ctx):
     res = Result("C06")
     res.extra["explanation"] = "Waker registration, unregistration-on-drop and wake-forwarding shapes of every hand-written future/stream of fibre."
@@ -327,4 +417,5 @@ def run(P, ctx):
     clause2(P, res)
     clause4(P, res)
     clause5(P, res)
+    clause6(P, res)
     return res
